@@ -24,7 +24,10 @@ PLAN = {
     "api": True,
     "mc": [("StoreMC_acct.cfg", False)],
     "sims": [("StoreSim_acct.cfg", 120, 800, 61)],
-    "drivers": [("TestVerif_StoreFree", 10, 60, "store_free.ndjson", None), ("TestVerif_StoreClose", 20, 150, "store_close.ndjson", None)],
+    "drivers": [("TestVerif_StoreFree", 10, 60, "store_free.ndjson", None), ("TestVerif_StoreClose", 20, 150, "store_close.ndjson", None),
+                # reads of entries that are past their deadline and not reclaimed yet are misses for the counters too
+                ("TestVerif_StoreTime", 24, 120, "store_time.ndjson", None),
+                ("TestVerif_StoreLoad", 6, 60, "store_load.ndjson", None)],
     "extra": extra,
     "assumptions": [
         "concurrency of the counters: Counter.tla (load / compare-and-swap per stripe) model-checked for 3 processes, 2 stripes, 5 additions; 8-64 goroutines add 20 000-80 000 times each to a real UnsignedCounter and read a real cache 5 000-25 000 times each, the totals are compared after they joined",
